@@ -722,6 +722,11 @@ def check_c15(tier, seed, replay=None):
                 if not m.crashes and not m.incomplete:
                     mismatches.append((v, i, h, None))
                 continue
+            if o[1] >= 1000000:
+                # the variant itself ran out of its step budget somewhere in this program: inconclusive
+                merged.counters["inconclusive"] = merged.counters.get("inconclusive", 0) + 1
+                merged.counters["inconclusive.variant_fuel"] = merged.counters.get("inconclusive.variant_fuel", 0) + 1
+                continue
             n += 1
             if o[0] != h:
                 mismatches.append((v, i, h, o[0]))
